@@ -813,7 +813,7 @@ fn try_into_window_frame(frame: WindowFrame<rq::Expr>) -> Result<sql_ast::Window
                 sql_ast::Value::Number(as_int.to_string(), false).into(),
             )))),
             _ => WindowFrameBound::Preceding(Some(Box::new(sql_ast::Expr::Value(
-                sql_ast::Value::Number((-as_int).to_string(), false).into(),
+                sql_ast::Value::Number(as_int.unsigned_abs().to_string(), false).into(),
             )))),
         })
     }
